@@ -54,6 +54,14 @@ class LazySrc:
         pass
 
 
+class LazySrcNC:
+    """the same source without an aclose method (a plain class-based async iterator)"""
+    fail_next = None
+    __init__ = LazySrc.__init__
+    __aiter__ = LazySrc.__aiter__
+    __anext__ = LazySrc.__anext__
+
+
 class KeepingSrc(LazySrc):
     """a source that itself keeps every item it has handed out (a page reader): its items live as long as it does, so
     a tool must let go of it once it is exhausted"""
@@ -148,7 +156,7 @@ PER_SOURCE = 3      # loop variable, a head / previous item, an item in flight
 def tee_pattern(rng, N, nchild):
     """random child progress with early closes; returns violations of  alive <= lead + constant"""
     tr = Tracker()
-    src = LazySrc(tr, N)
+    src = (LazySrcNC if rng.random() < 0.3 else LazySrc)(tr, N)
     t = a.tee(src, nchild)
     kids = list(t)
     pos = [0] * nchild
